@@ -476,6 +476,11 @@ void WFXMLScanner::scanReset(const InputSource& src)
 
     // Every document starts out as XML 1.0 until its XMLDecl says otherwise
     fXMLVersion = XMLReader::XMLV1_0;
+
+    // A progressive parse abandoned without parseReset() leaves its readers
+    // behind; drop them, or this document would be followed by the rest of
+    // the old one.
+    fReaderMgr.reset();
     fErrorCount = 0;
     fHasNoDTD = true;
     fElementIndex = 0;
